@@ -57,6 +57,10 @@ type Session struct {
 	*Server
 	Statements StatementCache
 	Portals    PortalCache
+
+	// discard is set once an error has been reported for an extended-query
+	// message. All incoming messages are discarded until the next Sync.
+	discard bool
 }
 
 // consumeCommands consumes incoming commands sent over the Postgres wire connection.
@@ -143,6 +147,12 @@ func (srv *Session) handleCommand(ctx context.Context, conn net.Conn, t types.Cl
 	ctx, cancel := context.WithCancel(ctx)
 	defer cancel()
 
+	// NOTE: an error has been reported for an extended-query message, all
+	// messages are read and discarded until a Sync is reached.
+	if srv.discard && t != types.ClientSync && t != types.ClientTerminate {
+		return nil
+	}
+
 	switch t {
 	case types.ClientSimpleQuery:
 		return srv.handleSimpleQuery(ctx, reader, writer)
@@ -189,6 +199,7 @@ func (srv *Session) handleCommand(ctx context.Context, conn net.Conn, t types.Cl
 		// — this ensures that there is one and only one ReadyForQuery sent for
 		// each Sync.)
 		// https://www.postgresql.org/docs/current/protocol-flow.html#PROTOCOL-FLOW-EXT-QUERY
+		srv.discard = false
 		return readyForQuery(writer, types.ServerIdle)
 	case types.ClientBind:
 		return srv.handleBind(ctx, reader, writer)
@@ -287,7 +298,7 @@ func (srv *Session) handleSimpleQuery(ctx context.Context, reader *buffer.Reader
 
 func (srv *Session) handleParse(ctx context.Context, reader *buffer.Reader, writer *buffer.Writer) error {
 	if srv.parse == nil || srv.Statements == nil {
-		return ErrorCode(writer, NewErrUnimplementedMessageType(types.ClientParse))
+		return srv.extendedError(writer, NewErrUnimplementedMessageType(types.ClientParse))
 	}
 
 	name, err := reader.GetString()
@@ -321,14 +332,14 @@ func (srv *Session) handleParse(ctx context.Context, reader *buffer.Reader, writ
 
 	statement, err := singleStatement(srv.parse(ctx, query))
 	if err != nil {
-		return ErrorCode(writer, err)
+		return srv.extendedError(writer, err)
 	}
 
 	srv.logger.Debug("incoming extended query", slog.String("query", query), slog.String("name", name), slog.Int("parameters", len(statement.parameters)))
 
 	err = srv.Statements.Set(ctx, name, statement)
 	if err != nil {
-		return ErrorCode(writer, err)
+		return srv.extendedError(writer, err)
 	}
 
 	writer.Start(types.ServerParseComplete)
@@ -356,7 +367,7 @@ func (srv *Session) handleDescribe(ctx context.Context, reader *buffer.Reader, w
 		}
 
 		if statement == nil {
-			return ErrorCode(writer, errors.New("unknown statement"))
+			return srv.extendedError(writer, errors.New("unknown statement"))
 		}
 
 		err = srv.writeParameterDescription(writer, statement.parameters)
@@ -373,13 +384,13 @@ func (srv *Session) handleDescribe(ctx context.Context, reader *buffer.Reader, w
 		}
 
 		if portal == nil {
-			return ErrorCode(writer, errors.New("unknown portal"))
+			return srv.extendedError(writer, errors.New("unknown portal"))
 		}
 
 		return srv.writeColumnDescription(ctx, writer, portal.formats, portal.statement.columns)
 	}
 
-	return ErrorCode(writer, fmt.Errorf("unknown describe command: %q", string(d[0])))
+	return srv.extendedError(writer, fmt.Errorf("unknown describe command: %q", string(d[0])))
 }
 
 // https://www.postgresql.org/docs/15/protocol-message-formats.html
@@ -434,7 +445,7 @@ func (srv *Session) handleBind(ctx context.Context, reader *buffer.Reader, write
 	}
 
 	if stmt == nil {
-		return ErrorCode(writer, NewErrUnkownStatement(statement))
+		return srv.extendedError(writer, NewErrUnkownStatement(statement))
 	}
 
 	err = srv.Portals.Bind(ctx, name, stmt, parameters, formats)
@@ -542,7 +553,7 @@ func (srv *Session) readColumnTypes(reader *buffer.Reader) ([]FormatCode, error)
 
 func (srv *Session) handleExecute(ctx context.Context, reader *buffer.Reader, writer *buffer.Writer) error {
 	if srv.Statements == nil {
-		return ErrorCode(writer, NewErrUnimplementedMessageType(types.ClientExecute))
+		return srv.extendedError(writer, NewErrUnimplementedMessageType(types.ClientExecute))
 	}
 
 	name, err := reader.GetString()
@@ -562,10 +573,18 @@ func (srv *Session) handleExecute(ctx context.Context, reader *buffer.Reader, wr
 	srv.logger.Debug("executing", slog.String("name", name), slog.Uint64("limit", uint64(limit)))
 	err = srv.Portals.Execute(ctx, name, reader, writer)
 	if err != nil {
-		return ErrorCode(writer, err)
+		return srv.extendedError(writer, err)
 	}
 
 	return nil
+}
+
+// extendedError reports an error detected while processing an extended-query
+// message. A single error response is written, all following messages are
+// discarded until a Sync is reached which ends the command cycle.
+func (srv *Session) extendedError(writer *buffer.Writer, err error) error {
+	srv.discard = true
+	return errorResponse(writer, err)
 }
 
 func (srv *Session) handleConnTerminate(ctx context.Context) error {
